@@ -24,6 +24,8 @@ fn main() {
             "C01" | "C02" | "C04" | "C05" | "C08" | "C16" => mc::checks::wscheck::replay(&v["case"]),
             "C06" => mc::checks::c06::replay(&v["case"]),
             "C09" => mc::checks::c09::replay(&v["case"]),
+            "C10" => mc::checks::c10::replay(&v["case"]),
+            "C12" => mc::checks::c12::replay(&v["case"]),
             _ => {
                 eprintln!("no replay for {}", id);
                 std::process::exit(2)
@@ -41,6 +43,8 @@ fn main() {
         "C16" => mc::checks::c16::run(rep),
         "C08" => mc::checks::c08::run(rep),
         "C09" => mc::checks::c09::run(rep),
+        "C10" => mc::checks::c10::run(rep),
+        "C12" => mc::checks::c12::run(rep),
         _ => {
             eprintln!("unknown check {}", id);
             std::process::exit(2)
